@@ -46,3 +46,25 @@ WAVES_QUICK = ['haar', 'db2', 'db3', 'db7', 'sym4', 'coif2', 'bior1.3', 'bior2.4
 def waves(tier):
     return pywt.wavelist(kind='discrete') if tier == 'thorough' else WAVES_QUICK
 MODES5 = ['zero', 'symmetric', 'reflect', 'periodic', 'periodization']
+
+
+def cot_families(r, shapes):
+    """Cotangents for 'backward = J^T g for EVERY cotangent g': besides a dense random one, the structured ones a hand-written backward
+    could special-case - exactly zero-sum (two-point and dense integer), supported on ONE output only (all others exactly zero),
+    constant, and scaled by 2^-40 (linearity).  Yields (name, [tensor per shape])."""
+    shapes = [tuple(s) for s in shapes]
+    Z = lambda s: torch.zeros(s, dtype=torch.float64)
+    yield 'randn', [torch.tensor(r.standard_normal(s)) for s in shapes]
+    for a, s in enumerate(shapes):
+        n = int(np.prod(s))
+        if n >= 2:
+            g = Z(s); i, j = (int(v) for v in r.choice(n, 2, replace=False)); g.view(-1)[i] = 1.0; g.view(-1)[j] = -1.0
+            yield 'two-point zero-sum on output %d' % a, [g if b == a else Z(sb) for b, sb in enumerate(shapes)]
+    dense = []
+    for s in shapes:
+        g = torch.tensor(r.integers(-3, 4, size=s).astype(np.float64))
+        if g.numel() >= 1: g.view(-1)[0] -= g.sum()
+        dense.append(g)
+    yield 'dense integer, every output sums to exactly 0', dense
+    yield 'all ones', [torch.ones(s, dtype=torch.float64) for s in shapes]
+    yield 'randn * 2^-40', [torch.tensor(r.standard_normal(s)) * 2.0 ** -40 for s in shapes]
